@@ -488,6 +488,9 @@ struct Unit
       os << (pi ? "\n  \\/ " : "") << "(" << t.name << "_c" << pi << params << " /\\ out = " << t.name << "_p" << pi
          << params << ")";
     os << ".\n";
+    os << "Create HintDb " << t.name << "_db.\n#[global] Hint Unfold";
+    for (size_t pi = 0; pi < t.paths.size(); ++pi) os << " " << t.name << "_p" << pi << " " << t.name << "_c" << pi;
+    os << " : " << t.name << "_db.\n";
     os << "Lemma " << t.name << "_cover : " << fa;
     for (size_t pi = 0; pi < t.paths.size(); ++pi) os << (pi ? " \\/ " : "") << t.name << "_c" << pi << params;
     os << ".\nProof. intros; unfold ";
